@@ -39,7 +39,7 @@ const GA_RESP: Table = &[(1, "credential", false), (2, "authData", true), (3, "s
 const GI_RESP: Table = &[(1, "versions", true), (2, "extensions", false), (3, "aaguid", true), (4, "options", false), (5, "maxMsgSize", false), (6, "pinUvAuthProtocols", false), (9, "transports", false)];
 const HMAC_IN: Table = &[(1, "keyAgreement", true), (2, "saltEnc", true), (3, "saltAuth", true), (4, "pinUvAuthProtocol", false)];
 
-fn ser<T: Serialize>(v: &T) -> Result<Vec<u8>, String> {
+pub(crate) fn ser<T: Serialize>(v: &T) -> Result<Vec<u8>, String> {
     let mut out = Vec::new();
     ciborium::ser::into_writer(v, &mut out).map_err(|e| format!("{e:?}"))?;
     Ok(out)
@@ -83,7 +83,7 @@ fn gen_prf_values(rng: &mut Rng) -> AuthenticatorPrfValues {
     AuthenticatorPrfValues { first: rng.arr32(), second: if rng.bool() { Some(rng.arr32()) } else { None } }
 }
 
-fn gen_prf_inputs(rng: &mut Rng) -> AuthenticatorPrfInputs {
+pub(crate) fn gen_prf_inputs(rng: &mut Rng) -> AuthenticatorPrfInputs {
     let by = if rng.bool() {
         let mut m = HashMap::new();
         for _ in 0..rng.range(1, 3) {
@@ -107,7 +107,7 @@ fn gen_cose_value(rng: &mut Rng) -> Cbor {
     ])
 }
 
-fn gen_hmac_input(rng: &mut Rng) -> (HmacGetSecretInput, Vec<u8>) {
+pub(crate) fn gen_hmac_input(rng: &mut Rng) -> (HmacGetSecretInput, Vec<u8>) {
     let p = if rng.bool() { Some(*rng.pick(&[1u8, 2])) } else { None };
     let mut keys = vec![1, 2, 3];
     if p.is_some() {
@@ -124,7 +124,7 @@ fn gen_hmac_input(rng: &mut Rng) -> (HmacGetSecretInput, Vec<u8>) {
     )
 }
 
-fn gen_authdata(rng: &mut Rng, attested: bool) -> AuthenticatorData {
+pub(crate) fn gen_authdata(rng: &mut Rng, attested: bool) -> AuthenticatorData {
     let mut ad = AuthenticatorData::new(*rng.pick(&["example.com", "a.b.example.org", ""]), *rng.pick(&[None, Some(0), Some(77), Some(u32::MAX)]));
     if rng.bool() {
         ad = ad.set_flags(Flags::UP);
@@ -143,7 +143,7 @@ fn gen_authdata(rng: &mut Rng, attested: bool) -> AuthenticatorData {
     ad
 }
 
-fn gen_mc_req(rng: &mut Rng) -> (make_credential::Request, Vec<u8>) {
+pub(crate) fn gen_mc_req(rng: &mut Rng) -> (make_credential::Request, Vec<u8>) {
     let mut keys = vec![1, 2, 3, 4, 7];
     let exclude = if rng.bool() {
         keys.push(5);
@@ -192,7 +192,7 @@ fn gen_mc_req(rng: &mut Rng) -> (make_credential::Request, Vec<u8>) {
     )
 }
 
-fn gen_mc_resp(rng: &mut Rng) -> (make_credential::Response, Vec<u8>) {
+pub(crate) fn gen_mc_resp(rng: &mut Rng) -> (make_credential::Response, Vec<u8>) {
     let mut keys = vec![1, 2, 3];
     let ep = if rng.chance(1, 3) {
         keys.push(4);
@@ -225,7 +225,7 @@ fn gen_mc_resp(rng: &mut Rng) -> (make_credential::Response, Vec<u8>) {
     )
 }
 
-fn gen_ga_req(rng: &mut Rng) -> (get_assertion::Request, Vec<u8>) {
+pub(crate) fn gen_ga_req(rng: &mut Rng) -> (get_assertion::Request, Vec<u8>) {
     let mut keys = vec![1, 2, 5];
     let allow = if rng.bool() {
         keys.push(3);
@@ -267,7 +267,7 @@ fn gen_ga_req(rng: &mut Rng) -> (get_assertion::Request, Vec<u8>) {
     )
 }
 
-fn gen_ga_resp(rng: &mut Rng) -> (get_assertion::Response, Vec<u8>) {
+pub(crate) fn gen_ga_resp(rng: &mut Rng) -> (get_assertion::Response, Vec<u8>) {
     let mut keys = vec![2, 3];
     let cred = if rng.chance(3, 4) {
         keys.push(1);
@@ -321,7 +321,7 @@ fn gen_ga_resp(rng: &mut Rng) -> (get_assertion::Response, Vec<u8>) {
     )
 }
 
-fn gen_gi_resp(rng: &mut Rng) -> (get_info::Response, Vec<u8>) {
+pub(crate) fn gen_gi_resp(rng: &mut Rng) -> (get_info::Response, Vec<u8>) {
     let mut keys = vec![1, 3];
     let ext = if rng.bool() {
         keys.push(2);
